@@ -90,7 +90,7 @@ fn gen_c13_enumerated(seed: u64) -> Option<Scenario> {
       mined += b.len();
     }
     keep = i + 1;
-    if mined >= 7 && matches!(op, Op::Update(_)) {
+    if mined >= 6 && matches!(op, Op::Update(_)) {
       break;
     }
   }
